@@ -4,6 +4,7 @@
 use dmntk_feel::values::{Value, Values};
 use dmntk_feel::{FeelType, Scope};
 use dmntk_feel::FeelNumber;
+use dmntk_model::model::NamedElement;
 
 // The server crate exports only start_server; its DTO module is compiled into the driver from the repository's source file.
 #[allow(dead_code)]
@@ -268,6 +269,104 @@ fn main() {
       }
       println!("json cases={} failures={}", cases, nfail);
       for f in failures { println!("FAIL {}", f); }
+    }
+    Some("feelcases") => {
+      // feelcases <file>: lines `expression ==> expected output`; evaluates each expression (empty scope) and compares the
+      // rendered value with the expectation (`null` matches any null). Prints cases / failures in the bounded stand-in format.
+      let text = std::fs::read_to_string(&args[2]).unwrap_or_default();
+      let mut cases = 0usize;
+      let mut failures: Vec<String> = vec![];
+      let mut nfail = 0usize;
+      for line in text.lines() {
+        if let Some((e, expected)) = line.split_once(" ==> ") {
+          cases += 1;
+          let got = eval(e.trim());
+          let exp = expected.trim();
+          let ok = if exp == "null" { got.starts_with("VALUE null") } else { got == format!("VALUE {}", exp) };
+          if !ok { nfail += 1; if failures.len() < 5 { failures.push(format!("{} => {} (expected {})", e.trim(), got.chars().take(160).collect::<String>(), exp)); } }
+        }
+      }
+      println!("feelcases cases={} failures={}", cases, nfail);
+      for f in failures { println!("FAIL {}", f); }
+    }
+    Some("biftotal") => {
+      // BOUNDED stand-in (not a proof) for C05 on the built-in functions: every built-in name (file, one per line) applied to every
+      // tuple of 0..2 arguments from a 23-value grid and to every triple from an 8-value grid must return a value: no panic.
+      let names = std::fs::read_to_string(&args[2]).unwrap_or_default();
+      let grid: Vec<&str> = vec!["null", "0", "1", "-1", "2.5", "18446744073709551616", "\"\"", "\"a\"", "\"ż€\"", "true", "[]", "[null]", "[1,2]", "[\"a\"]", "[[1]]", "{}", "{a: 1}",
+        "date(\"2020-01-31\")", "time(\"10:00:00\")", "date and time(\"2020-01-01T10:00:00\")", "duration(\"P1D\")", "duration(\"P1M\")", "function(x, y) x < y"];
+      let small: Vec<&str> = vec!["null", "0", "-1", "18446744073709551616", "\"a\"", "[]", "[null]", "[1,2]"];
+      let mut cases = 0usize;
+      let mut failures: Vec<String> = vec![];
+      let mut nfail = 0usize;
+      let mut run = |e: String| { cases += 1; if eval(&e) == "PANIC" { nfail += 1; if failures.len() < 5 { failures.push(format!("{} => PANIC", e)); } } };
+      for name in names.lines().map(|l| l.trim()).filter(|l| !l.is_empty()) {
+        run(format!("{}()", name));
+        for a in &grid { run(format!("{}({})", name, a)); }
+        for a in &grid { for b in &grid { run(format!("{}({}, {})", name, a, b)); } }
+        for a in &small { for b in &small { for c in &small { run(format!("{}({}, {}, {})", name, a, b, c)); } } }
+      }
+      println!("biftotal cases={} failures={}", cases, nfail);
+      for f in failures { println!("FAIL {}", f); }
+    }
+    Some("models") => {
+      // models <listfile>: each line is the path of an XML text; parse it as a DMN model, build the model evaluator and evaluate every
+      // invocable with an empty input context, all under catch_unwind. Prints one line per file: OK n | ERROR | PANIC <where>.
+      let list = std::fs::read_to_string(&args[2]).unwrap_or_default();
+      let mut out = String::new();
+      for path in list.lines().map(|l| l.trim()).filter(|l| !l.is_empty()) {
+        let xml = std::fs::read_to_string(path).unwrap_or_default();
+        let r = std::panic::catch_unwind(move || {
+          match dmntk_model::parse(&xml) {
+            Err(_) => "ERROR parse".to_string(),
+            Ok(defs) => match dmntk_model_evaluator::ModelEvaluator::new(&defs) {
+              Err(_) => "ERROR build".to_string(),
+              Ok(me) => {
+                let mut names: Vec<String> = vec![];
+                for d in defs.decisions() { names.push(d.name().to_string()); }
+                for b in defs.business_knowledge_models() { names.push(b.name().to_string()); }
+                for ds in defs.decision_services() { names.push(ds.name().to_string()); }
+                let ctx = dmntk_feel::context::FeelContext::default();
+                for n in &names { let _ = me.evaluate_invocable(n, &ctx); }
+                format!("OK {}", names.len())
+              }
+            },
+          }
+        });
+        // one line per file, flushed at once: a stack overflow aborts the process and must be attributed to the right file
+        use std::io::Write;
+        println!("{} {}", path, r.unwrap_or("PANIC".to_string()));
+        let _ = std::io::stdout().flush();
+        let _ = &out;
+      }
+    }
+    Some("modelbatch") => {
+      // modelbatch <xml-file> <context-text>...: build the model once, evaluate every decision (document order) for every context
+      let xml = std::fs::read_to_string(&args[2]).unwrap_or_default();
+      let ctxs: Vec<String> = args[3..].to_vec();
+      let r = std::panic::catch_unwind(move || {
+        let mut out = String::new();
+        match dmntk_model::parse(&xml) {
+          Err(e) => out.push_str(&format!("PARSE-ERROR {}\n", e)),
+          Ok(defs) => match dmntk_model_evaluator::ModelEvaluator::new(&defs) {
+            Err(e) => out.push_str(&format!("BUILD-ERROR {}\n", e)),
+            Ok(me) => {
+              let scope = Scope::default();
+              for c in &ctxs {
+                match dmntk_feel_evaluator::evaluate_context(&scope, c) {
+                  Err(e) => out.push_str(&format!("CONTEXT-ERROR {}\n", e)),
+                  Ok(ctx) => for d in defs.decisions() {
+                    let v = std::panic::catch_unwind(std::panic::AssertUnwindSafe(|| me.evaluate_invocable(d.name(), &ctx).to_string())).unwrap_or("PANIC".to_string());
+                    out.push_str(&format!("{}\t{}\t{}\n", d.name(), c, v));
+                  },
+                }
+              }
+            }
+          },
+        }
+        out
+      });
+      print!("{}", r.unwrap_or("PANIC\n".to_string()));
     }
     Some("scopes") => {
       // BOUNDED stand-in (not a proof): every stack of up to <max> contexts in which each context either binds `x` (to its
